@@ -15,6 +15,7 @@
 package ctfe
 
 import (
+	"bytes"
 	"context"
 	"crypto/sha256"
 	"fmt"
@@ -179,6 +180,11 @@ func (s *indirectIssuanceChainService) getByHash(ctx context.Context, hash []byt
 	chain, err = s.storage.FindByKey(ctx, hash)
 	if err != nil {
 		return nil, err
+	}
+	// The storage is content-addressed: a chain that no longer hashes to its
+	// key is corrupt and must not be served.
+	if !bytes.Equal(issuanceChainHash(chain), hash) {
+		return nil, fmt.Errorf("issuance chain stored under hash %x does not match it", hash)
 	}
 
 	// If there is any error from cache set, do not return the error because
